@@ -619,6 +619,19 @@ func c20(c *Ctx) {
 								switch tv.Type.Underlying().(type) {
 								case *types.Array, *types.Basic:
 									check(se, x, "address of")
+								case *types.Struct:
+									// a struct-valued scratch field handed to a decoder by address is written by it; a struct
+									// that carries its own mutex (a cache type with methods) looks after itself
+									st := tv.Type.Underlying().(*types.Struct)
+									own := false
+									for k := 0; k < st.NumFields(); k++ {
+										if isMutexType(st.Field(k).Type()) {
+											own = true
+										}
+									}
+									if !own {
+										check(se, x, "address of")
+									}
 								}
 							}
 						}
@@ -761,7 +774,7 @@ func c20(c *Ctx) {
 
 	// ---------- Q3b: whole guarded maps/slices must not leave the critical section inside a returned structure
 	for _, fi := range fns {
-		if fi.Obj == nil || fi.FuncType().Results == nil {
+		if fi.Obj == nil || fi.Body() == nil { // (functions without results too: what they copy under a lock they may use after it)
 			continue
 		}
 		info := fi.Info()
@@ -905,6 +918,59 @@ func c20(c *Ctx) {
 			}
 			return true
 		})
+		// … nor is used after the lock it was taken under has been released in this very function (a copy made under the
+		// lock "so that the slow part can run without it": the copy's maps are the live maps)
+		if g := graphs[fi]; g != nil && flows[fi] != nil && len(carriers) > 0 {
+			defHeld := map[types.Object]lockSet{}
+			for _, v := range g.Nodes() {
+				as, ok := v.Node.(*ast.AssignStmt)
+				if !ok {
+					continue
+				}
+				for _, l := range as.Lhs {
+					if id, ok := l.(*ast.Ident); ok {
+						if o := astx.Obj(info, id); o != nil && carriers[o] != "" && defHeld[o] == nil && len(flows[fi].must[v.ID]) > 0 {
+							defHeld[o] = flows[fi].must[v.ID]
+						}
+					}
+				}
+			}
+			reported := map[types.Object]bool{}
+			for _, v := range g.Nodes() {
+				if v.Node == nil {
+					continue
+				}
+				if _, isRet := v.Node.(*ast.ReturnStmt); isRet {
+					continue // judged above
+				}
+				ast.Inspect(v.Node, func(m ast.Node) bool {
+					if _, isLit := m.(*ast.FuncLit); isLit {
+						return false
+					}
+					id, ok := m.(*ast.Ident)
+					if !ok {
+						return true
+					}
+					o := info.Uses[id]
+					held, tracked := defHeld[o]
+					if !tracked || reported[o] {
+						return true
+					}
+					still := false
+					for lk := range held {
+						if flows[fi].must[v.ID][lk] != "" || flows[fi].may[v.ID][lk] != "" {
+							still = true
+						}
+					}
+					if !still {
+						reported[o], escaped = true, true
+						r.Fail("C20.Q3", fi.Name(), "a local that aliases "+carriers[o]+" is used after the lock was released", c.P.Pos(id.Pos()),
+							"the local "+id.Name+" was filled under "+held.String()+" and still points at the live "+carriers[o]+"; here none of those locks is held any more: the maps and slices it shares with the state are read while the state machine writes them")
+					}
+					return true
+				})
+			}
+		}
 		if !escaped && len(carriers) > 0 {
 			r.Ok("C20.Q3", fi.Name(), "aliases of guarded maps stay inside the critical section", c.P.Pos(fi.Node().Pos()), fmt.Sprintf("%d local(s) alias guarded maps/slices; none is returned", len(carriers)))
 		}
